@@ -148,6 +148,76 @@ Theorem C08_parked_until_timeout : forall tr s s',
 Proof. exact parked_until_timeout. Qed.
 Print Assumptions C08_parked_until_timeout.
 
+(** Structured programs (gen/LockFootprints.all_programs: the control flow of every method body,
+    branches / loops / early exits, guards released where they die on each path).  The executable
+    check [prog_ordered] (abstract interpretation with the set of possible held lists at every program
+    point, loop entry sets invariant) is sound: every path - every choice of alternatives, every
+    number of loop iterations - starts holding nothing, respects the discipline, ends holding
+    nothing. *)
+Theorem C08_prog_ordered_sound : forall p, prog_ordered p = true ->
+  forall tr, paths p tr -> cordered tr = true.
+Proof. exact prog_ordered_sound. Qed.
+Print Assumptions C08_prog_ordered_sound.
+
+(** Every path of every generated program is Ordered, for every instance of bar / multi / ticker
+    ids (vm_compute of [prog_ordered] over the generated table + the soundness theorem). *)
+Theorem C08_all_paths_ordered : forall name p, In (name, p) all_programs ->
+  forall tr, paths p tr ->
+  cordered tr = true /\ forall b m k, Ordered (map (inst b m k) tr).
+Proof. exact all_paths_ordered. Qed.
+Print Assumptions C08_all_paths_ordered.
+
+(** ... also with all actions on one lock class erased: a bar that is not a member of a
+    MultiProgress runs the same paths without the Multi acquisitions (the programs model
+    ProgressDrawTarget::drawable by its only locking arm), a bar without ticker without Stop. *)
+Theorem C08_all_paths_erased_ordered : forall name p, In (name, p) all_programs ->
+  forall tr, paths p tr -> forall c, cordered (cerase c tr) = true.
+Proof. exact all_paths_erased_ordered. Qed.
+Print Assumptions C08_all_paths_erased_ordered.
+
+(** The two generated tables agree: the textual-order linearisation of each structured program is
+    the flat footprint of the same name (used by C08_footprints_ordered, C08_stop_protocol_generated
+    and C02_atomic_brackets_generated). *)
+Theorem C08_tables_agree :
+  map (fun np : String.string * cprog => (fst np, linear (snd np))) all_programs = all_footprints.
+Proof. exact generated_tables_agree. Qed.
+Print Assumptions C08_tables_agree.
+
+(** The ticker thread: every path of the generated program of TickerControl::run (any number of
+    loop iterations, every early exit) is Ordered and a legal worker. *)
+Theorem C08_ticker_paths_worker : forall tr, paths ticker_prog tr ->
+  forall b m k, Ordered (map (inst b m k) tr) /\ worker_ok (map (inst b m k) tr) = true.
+Proof. exact ticker_paths_worker. Qed.
+Print Assumptions C08_ticker_paths_worker.
+
+(** No deadlock, with the hypothesis stated over the generated programs: every thread starts
+    holding nothing and runs a concatenation of instances of PATHS of generated programs
+    ([WFp]; spawned threads are workers - e.g. paths of [ticker_prog], C08_ticker_paths_worker). *)
+Theorem C08_no_deadlock_paths : forall ths s,
+  WFp all_programs ths -> reachable (init ths) s ->
+  (exists i t, nth_error (threads s) i = Some t /\ unfinished t = true) ->
+  exists j s', step s j = Some s'.
+Proof. exact no_deadlock_paths. Qed.
+Print Assumptions C08_no_deadlock_paths.
+
+(** Treating RwLock::read as exclusive is conservative: the same theorem holds for EVERY lock
+    implementation [en] in which a free lock can be taken (the exclusive semantics [step] is the
+    least permissive one) - in particular with shared readers ([en_shared]). *)
+Theorem C08_no_deadlock_any_lock_semantics : forall en,
+  (forall s i a, enabled s a = true -> en s i a = true) ->
+  forall ths s, WFp all_programs ths -> greachable en (init ths) s ->
+  (exists i t, nth_error (threads s) i = Some t /\ unfinished t = true) ->
+  exists j s', gstep en s j = Some s'.
+Proof. exact no_deadlock_paths_g. Qed.
+Print Assumptions C08_no_deadlock_any_lock_semantics.
+
+Theorem C08_no_deadlock_shared_reads : forall reader ths s,
+  WFp all_programs ths -> greachable (en_shared reader) (init ths) s ->
+  (exists i t, nth_error (threads s) i = Some t /\ unfinished t = true) ->
+  exists j s', gstep (en_shared reader) s j = Some s'.
+Proof. exact no_deadlock_shared_reads. Qed.
+Print Assumptions C08_no_deadlock_shared_reads.
+
 (* ---- non-vacuity ---- *)
 (** a well-formed pool (update() as it is now, enable + disable, the ticker) and an unfinished
     reachable state of it *)
@@ -188,3 +258,17 @@ Proof.
   exists (run_ticker (fun _ => false) 8 (tinit false 1 false)). eexists.
   split; [vm_compute; reflexivity|]. repeat split.
 Qed.
+
+(** shared readers are strictly more permissive: two readers hold Multi 0 together, which the
+    exclusive semantics refuses *)
+Example C08_shared_readers_example :
+  exists s1 s2, gstep (en_shared (fun _ => true)) (init rd_pool) 0 = Some s1 /\
+                gstep (en_shared (fun _ => true)) s1 1 = Some s2 /\
+                step s1 1 = None /\
+                forallb (fun t => holds t (Multi 0)) (threads s2) = true.
+Proof. exact shared_readers_example. Qed.
+
+(** a path of a generated program *)
+Example C08_paths_example :
+  exists p, In (is_finished_name, p) all_programs /\ paths p [CAcq CBar; CRel CBar].
+Proof. exact paths_example. Qed.
